@@ -405,7 +405,7 @@ func c18CheckEntries(ctx *Ctx, res *Result, entries []c18Entry) {
 
 // ---------- unit: Autofix.Replace ----------
 
-type c18Repl struct{ text, from, to string }
+type c18Repl struct{ text, from, to, prefix string }
 
 func c18CheckReplace(ctx *Ctx, res *Result, cases []c18Repl) {
 	dir := filepath.Join(ctx.Work, "c18repl")
@@ -418,14 +418,19 @@ func c18CheckReplace(ctx *Ctx, res *Result, cases []c18Repl) {
 	var kept []c18Repl
 	var impl []string
 	for _, c := range cases {
-		_, fixes, _, _, panicked := pkglint.VerifSaveScript(path, c.text, false, []pkglint.VerifFixOp{{Line: 0, Kind: "replace", From: c.from, To: c.to}})
+		op := pkglint.VerifFixOp{Line: 0, Kind: "replace", From: c.from, To: c.to}
+		if c.prefix != "" {
+			op = pkglint.VerifFixOp{Line: 0, Kind: "replaceafter", From: c.from, To: c.to, Prefix: c.prefix}
+		}
+		_, fixes, _, _, panicked := pkglint.VerifSaveScript(path, c.text, false, []pkglint.VerifFixOp{op})
 		if panicked != "" || len(fixes) == 0 || !fixes[0].HasFix {
 			res.AddViolation(Violation{Key: "C18/replace/panic", What: fmt.Sprintf("Replace(%q,%q) on %q: %s", c.from, c.to, c.text, panicked), FoundInput: false,
 				Replay: map[string]any{"kind": "replace", "text": hx(c.text), "from": hx(c.from), "to": hx(c.to), "broken": "Autofix.Replace could not be driven"}})
 			continue
 		}
 		raws := strings.SplitAfter(c.text, "\n")
-		reqs = append(reqs, "repl "+hx(c.from)+" "+hx(c.to)+" "+hx(raws[0]))
+		// ReplaceAfter(prefix, from, to) = the same rule on prefix+from / prefix+to (Model: autofix_replace_after)
+		reqs = append(reqs, "repl "+hx(c.prefix+c.from)+" "+hx(c.prefix+c.to)+" "+hx(raws[0]))
 		kept = append(kept, c)
 		impl = append(impl, strings.Join(fixes[0].Texts, ""))
 	}
@@ -444,7 +449,7 @@ func c18CheckReplace(ctx *Ctx, res *Result, cases []c18Repl) {
 		}
 		if model != impl[i] {
 			res.AddViolation(Violation{Key: "C18/correspondence/replace",
-				What:       fmt.Sprintf("Replace(%q,%q) on %q: implementation %q, model %q", c.from, c.to, raw0, impl[i], model),
+				What:       fmt.Sprintf("ReplaceAfter(%q,%q,%q) on %q: implementation %q, model %q", c.prefix, c.from, c.to, raw0, impl[i], model),
 				FoundInput: false, Size: len(c.text) + len(c.from) + len(c.to),
 				Replay: map[string]any{"kind": "replace", "text": hx(c.text), "from": hx(c.from), "to": hx(c.to), "broken": "correspondence Autofix.Replace = Model.PatchSum.autofix_replace"}})
 		}
@@ -466,7 +471,11 @@ func c18ReplaceCases(rng *Rng, n int) []c18Repl {
 		if rng.Chance(10) {
 			hash = from + from
 		}
-		out = append(out, c18Repl{"SHA1 (" + name + ") = " + hash + "\n", from, Pick(rng, []string{"ffff", from, "", "0" + from})})
+		prefix := ""
+		if rng.Chance(50) {
+			prefix = ") = " // the call checkPatchSha1 makes
+		}
+		out = append(out, c18Repl{"SHA1 (" + name + ") = " + hash + "\n", from, Pick(rng, []string{"ffff", from, "", "0" + from}), prefix})
 	}
 	return out
 }
@@ -1019,7 +1028,11 @@ func replayC18(ctx *Ctx, rep map[string]any) *Result {
 		t, _ := rep["text"].(string)
 		f, _ := rep["from"].(string)
 		to, _ := rep["to"].(string)
-		c18CheckReplace(ctx, res, []c18Repl{{unhx(t), unhx(f), unhx(to)}})
+		pf, _ := rep["prefix"].(string)
+		if pf == "" {
+			pf = "-"
+		}
+		c18CheckReplace(ctx, res, []c18Repl{{unhx(t), unhx(f), unhx(to), unhx(pf)}})
 	case "package":
 		sc := c18Scenario{}
 		sc.kind, _ = rep["scenario"].(string)
